@@ -169,7 +169,7 @@ def validate_all(prop, trace, traces, max_events=25000, jvms=10):
         n_ev = 0
         with open(path, "w") as f:
             for i in idxs:
-                f.write(json.dumps({"ev": traces[i]["ev"]}, separators=(",", ":")) + "\n")
+                f.write(json.dumps({k: v for k, v in traces[i].items() if k != "machinery"}, separators=(",", ":")) + "\n")
                 n_ev += len(traces[i]["ev"])
         jobs.append((trace_mod, cfg, path, "%s_%04d" % (prop, s), n_ev, len(idxs)))
     rejects, states = [], 0
